@@ -211,14 +211,10 @@ m("c18-sitk-channel-axis", "C18", "utils/simpleitk/torch.py",
   """        data = data.unsqueeze(-1).transpose(0, -1).squeeze(0)""", """        data = data.unsqueeze(-1).transpose(0, -1).squeeze(0).flip(-1)""")
 m("c18-mha-compressed-size", "C18", "utils/imageio/meta.py",
   """        meta["CompressedDataSize"] = len(blob)""", """        meta["CompressedDataSize"] = len(blob) - 1""")
-m("c18-write-skips-unlink", "C18", "core/storage.py",
-  """        try:
-            self.path.unlink()
-        except FileNotFoundError:
-            self.path.parent.mkdir(parents=True, exist_ok=True)
-        self.path.write_bytes(data)""", """        self.path.parent.mkdir(parents=True, exist_ok=True)
-        with self.path.open("r+b" if self.path.exists() else "wb") as f:
-            f.write(data)""")
+m("c18-mha-spacing-reversed", "C18", "utils/imageio/meta.py",
+  """            "ElementSpacing": grid.spacing().cpu().numpy(),""", """            "ElementSpacing": grid.spacing().cpu().numpy()[::-1].copy(),""")
+# note: overwriting a file in place without unlink/truncate (trailing bytes of the previous file) was tried as a
+# mutant and is *equivalent* for this property: both readers take sizes from the header and ignore trailing bytes.
 m("c18-nifti-origin-sign", "C18", "utils/imageio/nifti.py",
   """    origin[:2] *= -1
     direction[:2] *= -1""", """    direction[:2] *= -1""")
